@@ -49,8 +49,8 @@ partial def parseTerm : List String → Option (V × List String)
       let (xs, rest) ← parseMany (2 * n) rest
       if pf == "1" then
         let (p, rest) ← parseTerm rest
-        pure (.struct xs p, rest)
-      else pure (.struct xs .nil, rest)
+        pure (.struct xs [p], rest)
+      else pure (.struct xs [], rest)
   | _ => none
 partial def parseMany : Nat → List String → Option (List V × List String)
   | 0, rest => some ([], rest)
@@ -76,7 +76,7 @@ partial def showTerm : V → String
   | .ref k b => s!"r {k.tag} " ++ hex16 b.toNat
   | .tuple br xs => String.intercalate " " (["T", if br then "1" else "0", toString xs.length] ++ xs.map showTerm)
   | .struct f p =>
-      String.intercalate " " (["S", toString (f.length / 2), if p.isNil then "0" else "1"] ++ f.map showTerm ++ (if p.isNil then [] else [showTerm p]))
+      String.intercalate " " (["S", toString (f.length / 2), if p.isEmpty then "0" else "1"] ++ f.map showTerm ++ (p.take 1).map showTerm)
 
 def pairChar (a b : V) : Char :=
   let e := equals a b
@@ -107,7 +107,7 @@ def step (st : Array V) (toks : List String) : Array V × String :=
       match parseMany (2 * n) rest with
       | some (flat, rest) =>
         match parseTerm rest, pairsOf flat with
-        | some (p, []), some kvs => (st, showTerm (structOfCount c kvs p))
+        | some (p, []), some kvs => (st, showTerm (structOfCount c kvs (if p.isNil then [] else [p])))
         | _, _ => (st, "bad-op")
       | none => (st, "bad-op")
     | _, _ => (st, "bad-op")
